@@ -26,8 +26,17 @@ pub struct BedDesc {
     pub strand: Option<bool>,
     /// (value, expected text)
     pub other: Vec<(Value, Vec<u8>)>,
-    /// why the writer must refuse it, if it must
+    /// which value lies outside the BED alphabet (the unchanged writer refuses those)
     pub invalid: Option<&'static str>,
+}
+
+impl BedDesc {
+    /// Some text field contains TAB / CR / LF: outside the statement's precondition, so not judged
+    /// even if a writer accepts it.
+    pub fn breaks_precondition(&self) -> bool {
+        let bad = |t: &[u8]| t.iter().any(|&b| b == b'\t' || b == b'\n' || b == b'\r');
+        bad(&self.chrom) || self.name.as_deref().map(bad).unwrap_or(false) || self.other.iter().any(|o| bad(&o.1))
+    }
 }
 
 const CHROM: &[u8] = b"abcdefXYZ0123456789_";
@@ -82,7 +91,10 @@ pub fn gen_desc(rng: &mut Rng, n: usize, hint: Hint) -> BedDesc {
     let chrom: Vec<u8> = match rng.below(20) {
         0 => {
             invalid = Some("reference sequence name");
-            rng.pick(&["", "chr 1", "chr-1", "chr\t1", "é", "a.b"]).as_bytes().to_vec()
+            // outside `[[:alnum:]_]{1,255}`: the unchanged writer refuses all of these; whatever a writer lets
+            // through and that is free of TAB / line terminators must read back (a leading '#' would make
+            // the line a comment)
+            rng.pick(&["", "chr 1", "chr-1", "chr\t1", "é", "a.b", "#chr1", "#", "##x", "chr#1", "HLA-A*01:01:01", "GL000192.1|alt", ".", "chr1\r"]).as_bytes().to_vec()
         }
         1 => vec![b'c'; 255],
         2 => {
@@ -169,7 +181,9 @@ pub fn corpus(n: usize) -> Vec<BedDesc> {
     };
     let minimal = BedDesc { chrom: b"chr1".to_vec(), start: 1, end: None, name: None, score: 0, strand: None, other: Vec::new(), invalid: None };
     let one = BedDesc { other: vec![s("")], ..minimal.clone() };
-    vec![rich.clone(), minimal.clone(), rich.clone(), one, minimal.clone(), minimal, rich]
+    let hash = BedDesc { chrom: b"#chr1".to_vec(), invalid: Some("reference sequence name"), ..minimal.clone() };
+    let punct = BedDesc { chrom: b"HLA-A*01:01".to_vec(), invalid: Some("reference sequence name"), ..rich.clone() };
+    vec![hash, punct, rich.clone(), minimal.clone(), rich.clone(), one, minimal.clone(), minimal, rich]
 }
 
 pub struct BedLine<const N: usize> {
@@ -249,10 +263,13 @@ macro_rules! bed_n {
             mon.evals += 1;
             mon.fps.insert(fnv1a(format!("bed|{N}|{}|{}|{}|{:?}", d.other.len().min(7), d.end.is_some(), d.name.is_some(), d.strand).as_bytes()));
             if d.invalid.is_some() {
-                // the writer let a value through that breaks the precondition (TAB / line terminator /
-                // non-printable): not judged, but counted
-                mon.c("bed.invalid_value_accepted_not_judged", 1);
-                return;
+                if d.breaks_precondition() {
+                    // TAB / line terminator inside a field: outside the precondition, counted only
+                    mon.c("bed.precondition_violating_value_accepted_not_judged", 1);
+                    return;
+                }
+                // outside the BED alphabet but delimiter-free: "whatever the writer accepts must read back"
+                mon.c("bed.value_outside_bed_alphabet_accepted_and_judged", 1);
             }
             // (ii) text level
             if bytes.last() != Some(&b'\n') || bytes[..bytes.len() - 1].iter().any(|&b| b == b'\n' || b == b'\r') {
